@@ -5,6 +5,9 @@ REPO   ?= /repo
 FL     ?= plain
 BUILDROOT ?= _build
 B      := $(BUILDROOT)/$(FL)
+# no built-in rules: nothing is ever compiled into /repo
+MAKEFLAGS += -r
+.SUFFIXES:
 SRCS   := $(shell sed -n '/^libppl_la_SOURCES/,/^$$/p' $(REPO)/src/Makefile.am | grep -v '^#' | grep -o '[A-Za-z0-9_-]*\.cc')
 OBJS   := $(patsubst %.cc,$(B)/lib/%.o,$(SRCS))
 INC    := -I$(REPO) -I$(REPO)/src
@@ -17,9 +20,16 @@ else
 OPT    := -O2 -g1 -fno-omit-frame-pointer
 LDSAN  := -fsanitize=leak
 endif
+# PPL_UNREACHABLE calls the WEAK function ppl_unreachable(): a weak reference does not pull assertions.o out of the
+# static archive and would resolve to address 0 (SIGSEGV instead of the abort() of the shared library)
+LDSAN  += -Wl,-u,_ZN23Parma_Polyhedra_Library15ppl_unreachableEv -Wl,-u,_ZN23Parma_Polyhedra_Library19ppl_unreachable_msgEPKcS1_jS1_
 CXX    := g++
 KIT    := sim/kit
 HARNESSES := wd obj_poly obj_shapes obj_grid obj_pset obj_prod rows mip pip widen
+# the C interface (14 generated translation units, ~1800 entry points) is built in the plain flavour only
+ifneq ($(FL),asan)
+HARNESSES += capi
+endif
 
 all: lib $(addprefix $(B)/bin/,$(HARNESSES))
 
@@ -64,23 +74,28 @@ $(B)/bin/widen: $(B)/h/widen.o $(B)/libppl.a
 	$(CXX) $(OPT) -o $@ $< $(B)/libppl.a -lgmpxx -lgmp $(LDSAN)
 
 # ---- C interface: regenerated with m4 from the current tree, compiled, plus generated thunks
-CAPI_DEPS := $(wildcard $(REPO)/interfaces/*.m4 $(REPO)/interfaces/C/*.m4 $(REPO)/interfaces/C/ppl_c_implementation_common* $(REPO)/interfaces/C/ppl_c_header.h $(REPO)/interfaces/C/ppl_c_version.h)
-$(B)/capi_src/.stamp: $(CAPI_DEPS) tools/gen_capi.sh tools/gen_capi_thunks.py
+CAPI_DEPS := $(wildcard $(REPO)/interfaces/*.m4 $(REPO)/interfaces/C/*.m4 $(REPO)/interfaces/C/ppl_c_implementation_common.cc $(REPO)/interfaces/C/ppl_c_implementation_common_*.hh $(REPO)/interfaces/C/ppl_c_header.h $(REPO)/interfaces/C/ppl_c_version.h)
+# The generator writes the list of generated translation units into an included makefile: make re-reads it
+# after (re)generating, so that the objects are ordinary prerequisites with ordinary header dependencies
+# (a change in any /repo header rebuilds the interface objects that include it).
+$(B)/capi_src/objs.mk: $(CAPI_DEPS) tools/gen_capi.sh
 	@mkdir -p $(B)/capi_src
 	REPO=$(REPO) tools/gen_capi.sh $(abspath $(B)/capi_src) >/dev/null
 	echo '#include "ppl_c.h"' | gcc -E -x c -I$(B)/capi_src - | grep -v '^#' > $(B)/capi_src/ppl_c_pp.h
-	touch $@
+	echo "CAPI_SRCS := $$(cd $(B)/capi_src && ls ppl_c_*.cc | tr '\n' ' ')" > $@
+
+ifneq ($(FL),asan)
+-include $(B)/capi_src/objs.mk
+endif
+CAPI_OBJS := $(patsubst %.cc,$(B)/capi_obj/%.o,$(CAPI_SRCS))
 
 $(B)/capi_obj/%.o: $(B)/capi_src/%.cc
 	@mkdir -p $(dir $@)
 	$(CXX) $(COMMON) $(OPT) -I$(B)/capi_src -I$(REPO)/interfaces -c $< -o $@
 
-capi_objs: $(patsubst $(B)/capi_src/%.cc,$(B)/capi_obj/%.o,$(wildcard $(B)/capi_src/ppl_c_*.cc))
-	@rm -f $(B)/libppl_c.a
-	ar rcs $(B)/libppl_c.a $^
-
-$(B)/libppl_c.a: $(B)/capi_src/.stamp
-	$(MAKE) FL=$(FL) BUILDROOT=$(BUILDROOT) REPO=$(REPO) capi_objs
+$(B)/libppl_c.a: $(B)/capi_src/objs.mk $(CAPI_OBJS)
+	@rm -f $@
+	ar rcs $@ $(CAPI_OBJS)
 
 # thunks only for entry points that the compiled interface actually defines (declared-but-undefined ones are reported by the generator)
 $(B)/capi_src/capi_thunks.inc: $(B)/libppl_c.a tools/gen_capi_thunks.py
@@ -106,4 +121,4 @@ clean:
 -include $(OBJS:.o=.d)
 -include $(wildcard $(B)/h/*.d) $(wildcard $(B)/k/*.d) $(wildcard $(B)/capi_obj/*.d)
 .SECONDARY:
-.PHONY: all lib clean capi_objs
+.PHONY: all lib clean
